@@ -362,6 +362,7 @@ void readVector(std::istream &is, std::vector<VecType> &x){
     }else{
         is.read((char*) x.data(), x.size() * sizeof(VecType));
     }
+    if (is.fail()) throw std::runtime_error("ERROR: could not read the expected data, the file or stream is truncated or corrupt");
 }
 
 /*!
@@ -391,12 +392,14 @@ void writeNumbers(std::ostream &os, Vals... vals){
  */
 template<typename iomode, typename Val>
 Val readNumber(std::istream &is){
-    Val v;
+    Val v = Val();
     if (std::is_same<iomode, mode_ascii_type>::value){
         is >> v;
     }else{
         is.read((char*) &v, sizeof(Val));
     }
+    // a short read leaves v partly uninitialized, sizes read that way make the caller allocate arbitrary amounts of memory
+    if (is.fail()) throw std::runtime_error("ERROR: could not read the expected data, the file or stream is truncated or corrupt");
     return v;
 }
 
